@@ -15,7 +15,7 @@ EXPLANATION = ("fast_nonMarkov_SIS is executed symbolically with harness-owned u
                "distinct event times), with the attempting node recorded as infector; every non-initial infection is one of the "
                "attempts; nothing else changes a status and nothing is reported at/after tmax.")
 BOUNDS = {'quick': 'graphs K2, P3; all initial sets up to automorphism; <=3 infectious episodes per run; <=2 delays per (episode, neighbour)',
-          'thorough': 'adds K3, P4 (<=3 episodes; 2 delays per pair from a single initial node), K2 with <=4 episodes'}
+          'thorough': 'adds K3, P4 (<=3 episodes from one initial node, <=2 from several; one delay per pair), P3 from an end node with 2 delays per pair, the two-neighbour configuration with <=4 episodes, K2 with <=4 episodes (larger settings exceeded the path cap)'}
 ASSUMPTIONS = ['floats as reals', 'delay lists ascending and all delays < duration (documented precondition; ascending is what the code relies on)',
                'distinct event times for the infect-iff-susceptible obligation (statement\'s proviso)', 'L2 is not needed here (no randomness)']
 OPTS = {'quick': {'max_validate': 2, 'validate_every': 37, 'cfg_timeout': 250}, 'thorough': {'max_validate': 2, 'validate_every': 211, 'cfg_timeout': 1700}}
@@ -41,7 +41,8 @@ def configs(tier):
                     if not full and form != 'separate':
                         continue
                     out.append(dict(entry='fast_nonMarkov_SIS', graph=g, I0=I0, R0=[], full=full, form=form, tmax='sym',
-                                    max_infections=3 if (tier == 'quick' or g != 'K2') else 4, delays_per_pair=2 if (g == 'K2' or (tier == 'thorough' and len(I0) == 1)) else 1,
+                                    max_infections=(3 if (tier == 'quick' or g != 'K2') else 4) if (g in ('K2', 'P3') or len(I0) == 1) else 2,
+                                    delays_per_pair=2 if (g == 'K2' or (tier == 'thorough' and g == 'P3' and I0 == [0])) else 1,
                                     tags=[g, form, 'full' if full else 'plain']))
                     if g == 'P3' and full and form == 'separate' and I0 in ([0, 2], [1]):
                         # a source with two neighbours and two listed delays per neighbour (chained attempts towards each of them)
